@@ -47,9 +47,9 @@ func (e *Env) RSink() {
 		e.Run.Violation("R-SINK", "hasCommentField exists", "", "function missing")
 	}
 	// (2) addCommentField's cases
-	fd := load.FuncDecl(pkg, "FileRestorer", "addCommentField")
+	fd := e.fieldSink()
 	if fd == nil || fd.Body == nil {
-		e.Run.Violation("R-SINK", "addCommentField exists", "", "function missing")
+		e.Run.Violation("R-SINK", "addCommentField exists", "", "no method of the restorer stores a comment in a node's Comment field")
 		return
 	}
 	recv := c.ObjOf(fd.Recv.List[0].Names[0])
@@ -61,16 +61,52 @@ func (e *Env) RSink() {
 			params[nm.Name] = info.Defs[nm]
 		}
 	}
+	// the comment: built here from a position and a text parameter, or handed in as a *ast.Comment
+	// (then the call sites build it at the cursor: applyDecorationsSinks)
 	okComment := false
+	isParam := func(x ast.Expr) bool {
+		id, ok := ast.Unparen(x).(*ast.Ident)
+		if !ok {
+			return false
+		}
+		for _, o := range params {
+			if o == interface{}(info.Uses[id]) {
+				return true
+			}
+		}
+		return false
+	}
 	ast.Inspect(fd.Body, func(n ast.Node) bool {
-		if u, ok := n.(*ast.UnaryExpr); ok && u.Op == token.AND {
-			if c.ExprStr(u) == "&Comment{Slash: slash, Text: text}" {
-				okComment = true
+		if cl, ok := n.(*ast.CompositeLit); ok {
+			if p, tn := namedOf(info.TypeOf(cl)); p == "go/ast" && tn == "Comment" {
+				slash, text := false, false
+				for _, el := range cl.Elts {
+					if kv, ok := el.(*ast.KeyValueExpr); ok {
+						if k, ok := kv.Key.(*ast.Ident); ok {
+							switch k.Name {
+							case "Slash":
+								slash = isParam(kv.Value) && isTokenPos(info.TypeOf(kv.Value))
+							case "Text":
+								text = isParam(kv.Value)
+							}
+						}
+					}
+				}
+				if slash && text {
+					okComment = true
+				}
 			}
 		}
 		return true
 	})
-	e.Run.Check("R-SINK", "addCommentField builds the comment from its position and text parameters", e.Prog.Pos(fd.Pos()), okComment, "expected c := &ast.Comment{Slash: slash, Text: text}")
+	for _, pf := range fd.Type.Params.List {
+		if p, tn := namedOf(info.TypeOf(pf.Type)); p == "go/ast" && tn == "Comment" {
+			if _, isPtr := info.TypeOf(pf.Type).(*types.Pointer); isPtr {
+				okComment = true
+			}
+		}
+	}
+	e.Run.Check("R-SINK", "addCommentField builds the comment from its position and text parameters", e.Prog.Pos(fd.Pos()), okComment, "expected &ast.Comment{Slash: <position parameter>, Text: <text parameter>}, or a *ast.Comment parameter")
 	adds := map[string]string{}
 	var ts *ast.TypeSwitchStmt
 	for _, st := range fd.Body.List {
@@ -192,6 +228,63 @@ func (e *Env) RSink() {
 	e.applyDecorationsSinks()
 }
 
+// fieldSink: the method of the restorer that puts a comment into a node's own Comment field — the
+// one whose body stores into (or appends to the List of) the Comment field of a go/ast node. Found
+// by what it does, not by its name.
+func (e *Env) fieldSink() *ast.FuncDecl {
+	if fd, ok := fieldSinkCache[e]; ok {
+		return fd
+	}
+	pkg := e.Prog.Pkg(load.PkgDecorator)
+	info := pkg.TypesInfo
+	var found *ast.FuncDecl
+	for _, fd := range load.AllFuncDecls(pkg) {
+		if fd.Body == nil || fd.Recv == nil || found != nil {
+			continue
+		}
+		if _, tn := namedOf(info.TypeOf(fd.Recv.List[0].Type)); tn != "FileRestorer" {
+			continue
+		}
+		ast.Inspect(fd.Body, func(n ast.Node) bool {
+			as, ok := n.(*ast.AssignStmt)
+			if !ok {
+				return true
+			}
+			for _, l := range as.Lhs {
+				se, ok := ast.Unparen(l).(*ast.SelectorExpr)
+				if !ok {
+					continue
+				}
+				if se.Sel.Name == "List" {
+					if inner, ok := ast.Unparen(se.X).(*ast.SelectorExpr); ok {
+						se = inner
+					}
+				}
+				if se.Sel.Name != "Comment" {
+					continue
+				}
+				if p, _ := namedOf(info.TypeOf(se.X)); p == "go/ast" {
+					found = fd
+				}
+			}
+			return true
+		})
+	}
+	fieldSinkCache[e] = found
+	return found
+}
+
+var fieldSinkCache = map[*Env]*ast.FuncDecl{}
+
+func (e *Env) isFieldSinkCall(info *types.Info, call *ast.CallExpr) bool {
+	fd := e.fieldSink()
+	if fd == nil {
+		return false
+	}
+	fn := calleeFunc(info, call)
+	return fn != nil && types.Object(fn) == info.Defs[fd.Name]
+}
+
 // stmtNorm renders a statement's normal form (expressions through ExprStr).
 func stmtNorm(c *schema.Ctx, s ast.Stmt) string {
 	switch x := s.(type) {
@@ -288,15 +381,104 @@ func (e *Env) applyDecorationsSinks() {
 	nField, nFree, nAdv := 0, 0, 0
 	bad := ""
 	orderOK := true
+	// a comment that stands at the cursor: &ast.Comment{Slash: r.cursor, Text: d} (the type may be
+	// elided inside a []*ast.Comment literal), or a local defined as one with no cursor movement
+	// between the definition and the use
+	var commentAtCursor func(x ast.Expr, depth int) bool
+	commentAtCursor = func(x ast.Expr, depth int) bool {
+		x = ast.Unparen(x)
+		if u, ok := x.(*ast.UnaryExpr); ok && u.Op == token.AND {
+			x = ast.Unparen(u.X)
+		}
+		switch v := x.(type) {
+		case *ast.CompositeLit:
+			if p, tn := namedOf(info.TypeOf(v)); p != "go/ast" || tn != "Comment" {
+				return false
+			}
+			slash, text := false, false
+			for _, el := range v.Elts {
+				if kv, ok := el.(*ast.KeyValueExpr); ok {
+					if k, ok := kv.Key.(*ast.Ident); ok {
+						switch k.Name {
+						case "Slash":
+							slash = c.ExprStr(kv.Value) == "r.cursor"
+						case "Text":
+							text = c.ExprStr(kv.Value) == dName
+						}
+					}
+				}
+			}
+			return slash && text
+		case *ast.Ident:
+			if depth > 0 {
+				return false
+			}
+			o := info.Uses[v]
+			def := singleDefIn(info, loop.Body.List, o)
+			if def == nil || !commentAtCursor(def, depth+1) {
+				return false
+			}
+			moved := false
+			ast.Inspect(loop.Body, func(n ast.Node) bool {
+				switch w := n.(type) {
+				case *ast.AssignStmt:
+					for _, l := range w.Lhs {
+						if e.isRestorerField(info, l, "cursor") && def.Pos() < w.Pos() && w.Pos() < v.Pos() {
+							moved = true
+						}
+					}
+				case *ast.IncDecStmt:
+					if e.isRestorerField(info, w.X, "cursor") && def.Pos() < w.Pos() && w.Pos() < v.Pos() {
+						moved = true
+					}
+				}
+				return true
+			})
+			return !moved
+		}
+		return false
+	}
+	groupOfOneAtCursor := func(x ast.Expr) bool {
+		// append(r.comments, &ast.CommentGroup{List: []*ast.Comment{C}})
+		call, ok := ast.Unparen(x).(*ast.CallExpr)
+		if !ok || len(call.Args) != 2 || !e.isRestorerField(info, call.Args[0], "comments") {
+			return false
+		}
+		if id, ok := call.Fun.(*ast.Ident); !ok || id.Name != "append" {
+			return false
+		}
+		g := ast.Unparen(call.Args[1])
+		if u, ok := g.(*ast.UnaryExpr); ok && u.Op == token.AND {
+			g = ast.Unparen(u.X)
+		}
+		gl, ok := g.(*ast.CompositeLit)
+		if !ok || len(gl.Elts) != 1 {
+			return false
+		}
+		if p, tn := namedOf(info.TypeOf(gl)); p != "go/ast" || tn != "CommentGroup" {
+			return false
+		}
+		kv, ok := gl.Elts[0].(*ast.KeyValueExpr)
+		if !ok {
+			return false
+		}
+		if k, ok := kv.Key.(*ast.Ident); !ok || k.Name != "List" {
+			return false
+		}
+		ll, ok := ast.Unparen(kv.Value).(*ast.CompositeLit)
+		return ok && len(ll.Elts) == 1 && commentAtCursor(ll.Elts[0], 0)
+	}
 	scanBody := func(body ast.Node) {
 		var sinks, advs []token.Pos
 		ast.Inspect(body, func(n ast.Node) bool {
 			switch x := n.(type) {
 			case *ast.CallExpr:
-				if schema.IsMethod(c.Callee(x), load.PkgDecorator, "FileRestorer", "addCommentField") {
+				if e.isFieldSinkCall(info, x) {
 					nField++
 					sinks = append(sinks, x.Pos())
-					if !(len(x.Args) == 3 && c.ExprStr(x.Args[0]) == "node" && c.ExprStr(x.Args[1]) == "r.cursor" && c.ExprStr(x.Args[2]) == dName) {
+					three := len(x.Args) == 3 && c.ExprStr(x.Args[0]) == "node" && c.ExprStr(x.Args[1]) == "r.cursor" && c.ExprStr(x.Args[2]) == dName
+					two := len(x.Args) == 2 && c.ExprStr(x.Args[0]) == "node" && commentAtCursor(x.Args[1], 0)
+					if !three && !two {
 						bad = "addCommentField(" + c.ExprStr(x.Args[0]) + ", …) at " + e.Prog.Pos(x.Pos()) + " does not take (node, r.cursor, " + dName + ")"
 					}
 				}
@@ -307,7 +489,7 @@ func (e *Env) applyDecorationsSinks() {
 				if e.isRestorerField(info, x.Lhs[0], "comments") {
 					nFree++
 					sinks = append(sinks, x.Pos())
-					if c.ExprStr(x.Rhs[0]) != "append(r.comments, &CommentGroup{List: []*Comment{{Slash: r.cursor, Text: "+dName+"}}})" {
+					if c.ExprStr(x.Rhs[0]) != "append(r.comments, &CommentGroup{List: []*Comment{{Slash: r.cursor, Text: "+dName+"}}})" && !groupOfOneAtCursor(x.Rhs[0]) {
 						bad = "the free comment list receives `" + c.ExprStr(x.Rhs[0]) + "` at " + e.Prog.Pos(x.Pos())
 					}
 				}
@@ -337,7 +519,7 @@ func (e *Env) applyDecorationsSinks() {
 			return true
 		}
 		fn := c.Callee(call)
-		if fn == nil || fn.Pkg() != pkg.Types || fn.Name() == "addCommentField" {
+		if fn == nil || fn.Pkg() != pkg.Types || e.isFieldSinkCall(info, call) {
 			return true
 		}
 		body, undo := c.ExpandCall([]ast.Stmt{es})
